@@ -3,7 +3,7 @@
 (* A "bij" event lists, for one size n, the image of every object of the first start class under   *)
 (* the constructed map (fwd) and of every object of the second start class under the inverse (inv); *)
 (* the object sets themselves come from WordUniverse.tla.                                           *)
-EXTENDS WordUniverse, TLC
+EXTENDS WordUniverse, Bisim, TLC
 PairsOf(tbl) == {<<tbl[i][1], tbl[i][2]>> : i \in 1..Len(tbl)}
 Dom(tbl) == {tbl[i][1] : i \in 1..Len(tbl)}
 Ran(tbl) == {tbl[i][2] : i \in 1..Len(tbl)}
@@ -29,6 +29,17 @@ FinderClause(e) ==
     [] e.kind = "pair" /\ e.iso # "T" -> "ReturnedSpecificationsAreIsomorphic"
     [] e.kind = "pair" /\ ~e.bijection -> "ABijectionIsBuiltFromTheReturnedPair"
     [] OTHER -> "ok"
+\* structural isomorphism judged independently (Bisim.tla).  e.A / e.B : class name -> node, e.EA / e.EB : empty classes,
+\* e.ra / e.rb : the roots, e.claim : what is claimed ("finder": the finder returned this pair; "check": the library's test
+\* answered e.ans).  Only parameter-free specifications are exported (constructor equivalence is then equality of kinds).
+SeqSetI(q) == {q[i] : i \in 1..Len(q)}
+BisimClause(e) ==
+  LET b == Bisimilar(e.A, SeqSetI(e.EA), e.ra, e.B, SeqSetI(e.EB), e.rb) IN
+  CASE e.claim = "finder" /\ ~b -> "ReturnedSpecificationsAreIsomorphic"
+    \* the library's test is not asked to be complete, and a wrong "yes" is only a defect if a bijection built from it
+    \* misbehaves (judged by the bij events): a disagreement is reported as a note, never as a verdict
+    [] OTHER -> "ok"
+BisimAgrees(e) == (e.ans = "T") = Bisimilar(e.A, SeqSetI(e.EA), e.ra, e.B, SeqSetI(e.EB), e.rb)
 \* a bijection reloaded from its JSON form maps like the original
 ReloadClause(e) == IF e.same_fwd /\ e.same_inv THEN "ok" ELSE "ReloadedBijectionMapsLikeTheOriginal"
 =============================================================================
